@@ -27,7 +27,7 @@ EXPLANATION = ("Theorems: the streaming tokenizer's string reader equals the ref
                "rows of BOTH real builds for every document and layout. Oracle: the two builds give identical audit "
                "rows (content tree, list definitions, text) and identical play transcripts.")
 
-HOSTILE = ["tab\there", "quote\"inside", "back\\slash", "slash/", "bell\u0007", "nul\u0001", "\u001f unit", "é ü ñ",
+HOSTILE = ["del\u007f raw", "c1 \u0085 nel \u009f", "tab\there", "quote\"inside", "back\\slash", "slash/", "bell\u0007", "nul\u0001", "\u001f unit", "é ü ñ",
            "日本語", "😀 emoji 🎉", "  line sep  ", "﻿ bom", "mix \t\"\\/\b\f\r é😀", " nbsp", "à combining"]
 
 
